@@ -937,7 +937,7 @@ func propC08(run *Run, n int) {
 		}
 		c := choices[r.Intn(len(choices))]
 		cfg := c.cfg()
-		if len(cfg.SetKeys) > 1 && r.Chance(1, 5) {
+		if len(cfg.SetKeys) > 1 && r.Chance(1, 2) {
 			// directed: a member whose set key k is null (or absent) changes in a non-key field, so the
 			// hunk addresses it by {"id":…,"k":null}; the target holds, in front of it or behind it, the
 			// twin with the other spelling (absent / null): two identities, the exact one has precedence
